@@ -642,3 +642,29 @@ mutant("rmr-eval-before-parse-check",
 mutant("c15-len-counts-chars",
        [("src/builtins/type_functions.rs", "    let n: i64 = s.len().try_into()", "    let n: i64 = s.chars().count().try_into()")],
        [("C15", "R15.2")], note="`->len()` reports a character count")
+
+REM = "refactors/enummethods/patch.diff"
+mutant("rem-as-bool-accepts-int",
+       [("src/eval/value.rs", "            Value::Bool(b) => Some(*b),\n", "            Value::Bool(b) => Some(*b),\n            Value::Int(n) => Some(*n != 0),\n")],
+       [("C16", "R16.1")], base=REM, note="enum-accessor refactor + `as_bool` silently converts ints (conditions and && || accept ints)")
+mutant("rem-sub-swapped",
+       [(E, "                            if let Some(v) = a.checked_sub(b) {", "                            if let Some(v) = b.checked_sub(a) {")],
+       [("C06", "R06.1")], base=REM, note="enum-accessor refactor + swapped operands")
+
+REC = "refactors/errctors/patch.diff"
+mutant("rec-overflow-ctor-swaps-operands",
+       [("src/eval/error.rs", "        Error::IntOverflow{op: op.clone(), lhs, rhs}", "        Error::IntOverflow{op: op.clone(), lhs: rhs, rhs: lhs}")],
+       [("C06", "R06.1")], base=REC, note="error-constructor refactor + the helper swaps the operands of IntOverflow")
+mutant("rec-undefined-reads-null",
+       [(E, "                    None => return new_loc_err(Error::undefined(name)),", "                    None => return Ok(value::new_null()),")],
+       [("C20", "R20.4")], base=REC, note="error-constructor refactor + undefined variable reads as null")
+
+mutant("c13-grammar-collect-param-in-the-middle",
+       [(G, "        (values, collect)\n    }\n}\n\npub Block: Block = {",
+            "        (values, collect)\n    },\n    <mut values:(<Expr> \",\")*> \"..\" <v:Expr> \",\" <w:Expr> => {\n        values.push(v);\n        values.push(w);\n        (values, true)\n    },\n}\n\npub Block: Block = {")],
+       [("C13", "R13.4")], note="grammar lets a collecting parameter be followed by another parameter")
+
+RSL = "refactors/scopelist/patch.diff"
+mutant("rsl-empty-scope-not-pushed",
+       [(SC, "        ScopeStack(Some(Arc::new(ScopeNode{", "        if scope.is_empty() && self.0.is_some() {\n            return self.clone();\n        }\n        ScopeStack(Some(Arc::new(ScopeNode{")],
+       [("C04", "R04.4")], base=RSL, note="linked-list scope chain + an empty block scope is not pushed")
